@@ -4,12 +4,12 @@ CONSTANTS
   MaxEmptyReads = 100
   NilCloseGuarded = TRUE
   MaxContent = 3
-  MaxChunks = 4
+  MaxChunks = 3
   MaxChunk = 3
   ReadSizes = {0, 1, 2, 3}
-  MaxHist = 7
+  MaxHist = 6
   MaxConds = 1
-  OneShots = {"err"}
+  OneShots = {"eof", "err"}
   CloseErrs = {FALSE, TRUE}
 CONSTRAINT Bound
 INVARIANTS StepsAllowed StateInv
